@@ -16,7 +16,7 @@ func init() {
 	register(&Rule{ID: "VF-12", Title: "tail recovery re-establishes every writer field the frame scan set speculatively",
 		Props: []string{"C01", "C02", "C03", "C04", "C09"}, Floor: 1, Run: runVF12})
 	register(&Rule{ID: "VF-13", Title: "a failed segment-writer mutator restores every field it touched (incl. the rolling CRC, so the next commit frame covers exactly the bytes since the previous commit)",
-		Props: []string{"C10", "C09", "C02"}, Floor: 3, Run: runVF13})
+		Props: []string{"C10", "C09", "C02", "C06", "C01"}, Floor: 3, Run: runVF13})
 }
 
 // writerFieldName names a field of segment.Writer (or its nested writer struct) addressed by addr.
